@@ -192,6 +192,9 @@ def run(tier, seed):
                 jobs.append((name, W.POOL_QUICK, src,
                              ('yml',) if src == 'Loaded' else ('-',), seed, 5))
         jobs.append(('cse', W.POOL_QUICK[:4], 'NoData', ('-',), seed, 5))
+        for src in ('NoData', 'Stored', 'Loaded'):       # precedents reached through names
+            jobs.append(('named', W.POOL_QUICK[:4], src,
+                         ('json',) if src == 'Loaded' else ('-',), seed, 5))
         jobs.append(('twosheet', W.POOL_QUICK[:3], 'NoData', ('-',), seed, 5))
         jobs.append(('twosheet', W.POOL_QUICK[:3], 'Loaded', ('json',), seed, 5))
         jobs.append(('range', W.POOL_QUICK[:3], 'Stored', ('-',), seed, 5, True))
